@@ -48,8 +48,16 @@ def _write_rule(job, tmp, tag=""):
     import yaml
     rp = _content_file(tmp, "rule", yaml.safe_dump(job["rule"], sort_keys=False), ".yaml")
     mfiles = []
+    names = job.get("macros_file_names") or []
     for k, mo in enumerate(job.get("macros_files") or []):
-        mfiles.append(_content_file(tmp, "macros", yaml.safe_dump(mo, sort_keys=False), ".yaml"))
+        if k < len(names) and names[k]:
+            # a file name chosen by the case (the ORDER in which files are given must not be confused with their names' order)
+            fp = os.path.join(tmp, os.path.basename(names[k]))
+            with open(fp, "w") as f:
+                f.write(yaml.safe_dump(mo, sort_keys=False))
+            mfiles.append(fp)
+        else:
+            mfiles.append(_content_file(tmp, "macros", yaml.safe_dump(mo, sort_keys=False), ".yaml"))
     return rp, mfiles
 
 
